@@ -24,7 +24,7 @@ import ast, os, re, json, subprocess, time, textwrap
 
 # --------------------------------------------------------------------------- types
 Z, F, OF, B, OZ = "Z", "F", "OF", "B", "OZ"
-COQTY = {Z: "Z", F: "R", OF: "option R", B: "bool", OZ: "option Z",
+COQTY = {Z: "Z", F: "R", OF: "option R", B: "bool", OZ: "option Z", "LV": "list (list R)",
          # tensor kernels (row-wise semantics, see VecTr): vectors, matrices, 0/1 configurations, complex pairs
          "V": "list R", "M": "list (list R)", "BV": "bits", "OBV": "option bits", "C": "(R * R)"}
 
@@ -345,13 +345,23 @@ class Tr:
             if a == b:
                 return a, t
             return "(match %s with Some %s => %s | None => %s end)" % (scrut, v, a, b), t
+        try:
+            c, tc = self.expr(test, env)
+            c = self.truth(c, tc)
+            cerr = None
+        except Untranslatable as ex:
+            c, cerr = None, ex
+        if c == "true":
+            return k_true(env)
+        if c == "false":
+            return k_false(env)
         a, ta = k_true(env)
         b, tb = k_false(env)
         a, b, t = self.unify(a, ta, b, tb)
         if a == b:
             return a, t                       # the value does not depend on the test
-        c, tc = self.expr(test, env)
-        c = self.truth(c, tc)
+        if c is None:
+            raise cerr
         if a == BOTTOM[0]:
             return b, t
         if b == BOTTOM[0]:
@@ -733,6 +743,12 @@ class VecTr(Tr):
             return None
         raise Untranslatable("tensor operator %s on %s, %s" % (op, ta, tb))
 
+    def v_List(self, node, env):
+        parts = [self.expr(e, env) for e in node.elts]
+        if parts and all(t in ("V", "BV") for _, t in parts):
+            return "[" + "; ".join(self.coerce(e, t, "V") for e, t in parts) + "]", "LV"
+        return None
+
     def v_IfExp(self, node, env):
         # (v.unsqueeze(0) if v.dim() < 2 else v): rank normalisation, value-level identity
         t = node.test
@@ -808,6 +824,10 @@ class VecTr(Tr):
             b, tb = self.expr(args[1], env)
             if ta == F and tb == F:
                 return "(%s, %s)" % (a, b), "C"
+        if fname == "torch.cat" and len(args) == 1 and set(kw) <= {"dim"} and (not kw or ast.unparse(kw["dim"]) == "-1"):
+            a, ta = self.expr(args[0], env)
+            if ta == "LV":
+                return "(concat %s)" % a, "V"
         if fname in ("torch.zeros_like",) and len(args) == 1 and not kw:
             a, ta = self.expr(args[0], env)
             if ta == F:
@@ -845,6 +865,10 @@ class VecTr(Tr):
                     return "(map clamp01 %s)" % x, "V"
                 if tx == F:
                     return "(clamp01 %s)" % x, F
+            if meth == "view" and len(args) == 2 and ast.unparse(args[1]) == "-1" and isinstance(args[0], ast.Starred):
+                x, tx = self.expr(f.value, env)
+                if tx == "V":                               # a per-row matrix already held row-major flattened
+                    return x, "V"
             if meth in ("unsqueeze", "unsqueeze_") and len(args) == 1 and self.spec.get("pairwise"):
                 return self.expr(f.value, env)              # outer sum read pairwise
         return None
@@ -1035,12 +1059,14 @@ def translate_kernel(repo, spec):
     env = {}
     for py, coq, ty in spec["inputs"]:
         env[py] = (coq, ty)
+    for py, (coq, ty) in spec.get("assume", {}).items():
+        env[py] = (coq, ty)                   # a parameter fixed to a constant for this kernel (stated in the kernel name)
     tr.base_env = dict(env)
     kind = spec.get("kind", "function")
     if kind == "function":
         # every Python parameter must be a declared input (or self / listed as unused)
         for a in fn.args.args + fn.args.kwonlyargs:
-            if a.arg not in env and a.arg != "self" and a.arg not in spec.get("unused_params", []):
+            if a.arg not in env and a.arg != "self" and a.arg not in spec.get("unused_params", []) and a.arg not in spec.get("assume", {}):
                 raise Untranslatable("parameter %s of %s is not in the kernel table" % (a.arg, spec["func"]))
         if fn.args.vararg or fn.args.kwarg:
             raise Untranslatable("*args / **kwargs")
